@@ -177,7 +177,7 @@ def handle (st : DState) (line : String) : DState × String :=
       let ids := match e with
         | .node n _ => if st.nodeIds.contains n then st.nodeIds else st.nodeIds ++ [n]
         | _ => st.nodeIds
-      let st' : DState := ⟨r.1, ids⟩
+      let st' : DState := ⟨r.1.tab ids, ids⟩
       (st', showWorld st' r.2)
 
 def main : IO Unit := lineLoopS DState.init handle
